@@ -280,7 +280,13 @@ def api_case(c, rebound, W, stats, dims, rng):
         chk("iteration", [s_.t for s_ in sa] == ts)
         chk("Simulation(filename,snapshot)", all(rebound.Simulation(fn, snapshot=i).t == ts[i] for i in range(n)))
         chk("Simulation(filename)", rebound.Simulation(fn).t == ts[-1])
-        chk("Simulation(sa,snapshot)", rebound.Simulation(sa, snapshot=1).t == ts[1])
+        try:
+            chk("Simulation(sa,snapshot)", rebound.Simulation(sa, snapshot=1).t == ts[1])
+        except AttributeError as e:
+            chk("Simulation(sa,snapshot)", False, "AttributeError: %s" % e)
+        sq = rebound.Simulationarchive(fn, process_warnings=False)
+        chk("Simulation(sa_quiet,snapshot)", rebound.Simulation(sq, snapshot=1).t == ts[1])
+        del sq
         chk("getSimulation_snapshot_exact_time", all(sa.getSimulation(ts[i]).t == ts[i] for i in range(n)))
         mids = [(0.5 * (ts[i] + ts[i + 1]), i) for i in range(n - 1)]
         chk("getSimulation_snapshot_between", all(sa.getSimulation(tm).t == ts[i] for tm, i in mids), [(tm, sa.getSimulation(tm).t, ts[i]) for tm, i in mids][:3])
@@ -353,7 +359,7 @@ def big_counter_case(c, rebound, exe, W, stats, dims):
         sds.append(struct.unpack("<Q", ac.rec_value(recs, ac.STEPS))[0])
     want = [start + 2 * j for j in range(len(sds))]
     o = run_driver(exe, ["cadstep 2 %d %s" % (start, " ".join(str(start + i) for i in range(13)))])[0].split()
-    dims["counter_ge_2^32"] = dims.get("counter_ge_2^32", 0) + len([x for x in sds if x >= 2 ** 32])
+    dims["scale:counter>=2^32"] = dims.get("scale:counter>=2^32", 0) + len([x for x in sds if x >= 2 ** 32])
     c.count(("counter", len(sds)), n=len(sds))
     rep = dict(start=start, snapshots_at=sds, reader=res, model=o)
     if sds != want or res["nblobs"] != len(sds) or res["last_steps"] != sds[-1] or res["last_next"] != sds[-1] + 2:
@@ -806,7 +812,7 @@ def _run(c, rebound, exe, W):
         if hi == 5:
             hist = ac.gen_history(rng, 2500 if c.thorough else 700, structural="huge_n")
         elif r in (0, 3, 6, 9):
-            hist = ac.gen_history(rng, rng.randint(2, maxapp), structural=STRUCT_KINDS[(hi // 3) % len(STRUCT_KINDS)])
+            hist = ac.gen_history(rng, rng.randint(2, maxapp), structural=STRUCT_KINDS[(hi // 3) % len(STRUCT_KINDS)], variant=hi // 3)
         elif r in (1, 7):
             hist = ac.gen_history(rng, 0, auto=("interval" if (hi // 2) % 2 else "step"))
         else:
